@@ -118,6 +118,38 @@ func buildCases(tier string) []caseT {
 			}
 		}
 	}
+	// data filters that share their constant text and differ in their variable references, combined
+	// in pairs (quick) and triples (thorough): duplicate removal and sequence merging compare them
+	{
+		var dterms []string
+		for _, key := range []string{"cdata", "sdata"} {
+			for _, text := range []string{"a", "b"} {
+				for _, vs := range []string{"", "@v@", "@x:id@", "@v@@x:id@", "@x:id@@v@"} {
+					dterms = append(dterms, key+":"+text+vs)
+				}
+			}
+		}
+		dterms = append(dterms, "data:a", "data:a@v@", "cdata:\"(?P<v>a)\"", "@x:id:1")
+		sd := add("data filters sharing text, different variables", true)
+		for _, a := range dterms {
+			for _, b := range dterms {
+				for _, con := range []string{" ", " or ", " then "} {
+					sd(a + con + b)
+					sd("-" + a + con + b)
+					sd(a + con + "-" + b)
+					sd("-(" + a + con + b + ")")
+					if tier == "thorough" {
+						for _, c := range dterms {
+							for _, con2 := range []string{" ", " or ", " then "} {
+								sd(a + con + b + con2 + c)
+								sd("-(" + a + con + b + ")" + con2 + c)
+							}
+						}
+					}
+				}
+			}
+		}
+	}
 	// signed sums of own, foreign and sub-query variables in every order: terms may cancel each other
 	terms := []string{"+@id@", "-@id@", "+@a:id@", "-@a:id@", "+@cport@", "-@sport@", "+@sport@", "+1", "-2"}
 	exprLen := 3
